@@ -862,7 +862,9 @@ func (h *c22Harness) run(c c22Config, label string) {
 	for k, v := range extra {
 		m[k] = v
 	}
-	for _, x := range []int{c22XPorts, c22XNames, c22XNull, c22XPorts | c22XNames, c22XPorts | c22XNull, c22XNames | c22XNull, c22XPorts | c22XNames | c22XNull} {
+	// the YAML-typing explanations first, alone and together: a reading that involves the null misreading can land in a
+	// cell without a verdict (e.g. port and code both given) and would then "explain" anything
+	for _, x := range []int{c22XPorts, c22XNames, c22XPorts | c22XNames, c22XNull, c22XPorts | c22XNull, c22XNames | c22XNull, c22XPorts | c22XNames | c22XNull} {
 		ec := c22Explain(c, x)
 		if w2, _ := h.consistent(c22Judge(ec), o, false); w2 == "" {
 			m["explained_by_reading_the_text_as"] = ec.yaml()
